@@ -19,6 +19,12 @@ def alphabet : List Nat :=
    118, 119, 120, 121, 122,
    48, 49, 50, 51, 52, 53, 54, 55, 56, 57, 43, 47]
 
+/-- The same constant as text (bin/check compares this string with the one in jsont.rs on every run):
+ALPHABET = b"ABCDEFGHIJKLMNOPQRSTUVWXYZabcdefghijklmnopqrstuvwxyz0123456789+/" -/
+theorem alphabet_eq_source :
+    alphabet = "ABCDEFGHIJKLMNOPQRSTUVWXYZabcdefghijklmnopqrstuvwxyz0123456789+/".toList.map Char.toNat := by
+  decide
+
 /-- `ALPHABET[i]` -/
 def b64char (i : Nat) : Nat := alphabet.getD i 0
 
